@@ -138,6 +138,19 @@ var Features = []Feature{
 		t := d.Table("t")
 		t.Cols = append(t.Cols, Col{Name: "g", Type: "datetime", NotNull: true, Default: "CURRENT_TIMESTAMP", DefExpr: true})
 	}},
+	// string defaults whose value begins and ends with an apostrophe / is spelled with double quotes.
+	{Name: "col_q_default_apostrophe_edges", Apply: func(d *DB) {
+		t := d.Table("t")
+		t.Cols = append(t.Cols, Col{Name: "q", Type: "text", NotNull: true, Default: "'''tis Jones'''"})
+	}},
+	{Name: "col_s_default_trailing_apostrophe", Apply: func(d *DB) {
+		t := d.Table("t")
+		t.Cols = append(t.Cols, Col{Name: "s", Type: "text", NotNull: true, Default: "'Jones'''"})
+	}},
+	{Name: "col_r_default_double_quoted", Apply: func(d *DB) {
+		t := d.Table("t")
+		t.Cols = append(t.Cols, Col{Name: "r", Type: "text", NotNull: true, Default: "\"it's\""})
+	}},
 	{Name: "col_h_virtual", Apply: func(d *DB) {
 		t := d.Table("t")
 		t.Cols = append(t.Cols, Col{Name: "h", Type: "integer", Gen: "id + 1"})
@@ -554,7 +567,10 @@ func (d *DB) HCL() string {
 				case c.DefExpr:
 					fmt.Fprintf(&b, "    default = sql(%s)\n", hclStr(c.Default))
 				case strings.HasPrefix(c.Default, "'"):
-					fmt.Fprintf(&b, "    default = %s\n", hclStr(strings.ReplaceAll(strings.Trim(c.Default, "'"), "''", "'")))
+					fmt.Fprintf(&b, "    default = %s\n", hclStr(strings.ReplaceAll(c.Default[1:len(c.Default)-1], "''", "'")))
+				case strings.HasPrefix(c.Default, "\""):
+					// SQLite reads a double-quoted token that names no column as a string literal.
+					fmt.Fprintf(&b, "    default = %s\n", hclStr(strings.ReplaceAll(c.Default[1:len(c.Default)-1], "\"\"", "\"")))
 				default:
 					fmt.Fprintf(&b, "    default = %s\n", c.Default)
 				}
@@ -665,4 +681,30 @@ func SortedNames(m map[string]bool) []string {
 	}
 	sort.Strings(out)
 	return out
+}
+
+// HasColumn reports whether table t of the database has the column.
+func (d *DB) HasColumn(table, col string) bool {
+	t := d.Table(table)
+	return t != nil && t.Col(col) != nil
+}
+
+// OnlyAboutColumn: every catalogue-difference line quoted in the problems ("want:/got:/original:/
+// recreated:" lines) concerns the given column, and there is at least one such line.
+func OnlyAboutColumn(problems []string, col string) bool {
+	n := 0
+	for _, p := range problems {
+		for _, l := range strings.Split(p, "\n") {
+			l = strings.TrimSpace(l)
+			for _, pre := range []string{"want:", "got:", "original:", "recreated:", "before:", "after:"} {
+				if strings.HasPrefix(l, pre) {
+					if !strings.Contains(l, " column "+col+" ") {
+						return false
+					}
+					n++
+				}
+			}
+		}
+	}
+	return n > 0
 }
